@@ -685,3 +685,197 @@ Proof.
   - split; [reflexivity|]. split; vm_compute; reflexivity.
 Qed.
 End C10_order.
+
+(* =======================================================================================
+   Source-translator obligations (round 3, harness/translate/x_assemble.py): the two ORIENTATIONS of the
+   assembly and of the order helpers are read from the source text on every check and proved to denote the
+   row / column twins of the models the transposition theorems above relate (C10_order: [slice_row_order],
+   [slice_column_order] of Model/OrderOrient.v; Model/TransposeView.v's [rows_lists] / [columns_lists] are
+   built from [assemble_vec], [inserted_idxs], [derived_idxs_slice], [diff_idxs]):
+     matrix/assembler.py  row_display_order    = [slice_row_order]:   rows dimension, row mask, subtotal pruning
+                                                  by the COLUMNS, keys = columns of the blocks
+                          column_display_order = [slice_column_order]: the mirror image, keys = rows of the
+                                                  blocks with inserted rows <-> inserted columns exchanged
+     cubepart.py          row_* lists from dimension 0 with the row order, column_* lists from dimension 1 with
+                          the column order; a ROWS marginal takes the row order, any other the column order;
+                          np.ix_(row order, column order) - not the other way round.
+   (Proofs/GenAgreeAssemble.v, GenAgreeOrderHelpers.v; statements shared with C05 / C08.)
+   ======================================================================================= *)
+From Coq Require String.
+From CC Require Base.AsmExp Base.OrderExp Model.Assemble Model.Collator Model.SortKeys Model.OrderOrient
+     Gen.AssembleSrc Gen.SortTablesSrc Gen.OrderHelperSrc Proofs.AssembleProofs Proofs.GenAgreeAssemble Proofs.GenAgreeSortTables Proofs.GenAgreeOrderTac
+     Proofs.GenAgreeOrderHelpers.
+Section GenAgreeAssemble_C10.   (* scopes and imports below end with the section *)
+Import Coq.Strings.String CC.Base.AsmExp CC.Base.OrderExp CC.Model.Assemble CC.Model.Collator
+       CC.Model.SortKeys CC.Model.OrderOrient CC.Gen.AssembleSrc
+       CC.Gen.SortTablesSrc CC.Gen.OrderHelperSrc CC.Proofs.AssembleProofs CC.Proofs.GenAgreeAssemble
+       CC.Proofs.GenAgreeSortTables CC.Proofs.GenAgreeOrderTac CC.Proofs.GenAgreeOrderHelpers.
+Local Open Scope string_scope.
+
+Theorem C10_gen_row_display_order :
+  with_tables (fun cm me ma t1 t2 _ =>
+    match ord_matrix_row_display_order with
+    | Some e => forall rows cols rreq creq rmask cmask rl cl tr env marg,
+        names_apart env marg ->
+        heval' (henv_slice cm me ma t1 t2 rows cols rreq creq rmask cmask rl cl tr env marg) e
+        = to_hres (slice_row_order (sl_sd rows cols rreq creq rmask cmask rl cl tr) env marg)
+    | None => True
+    end).
+Proof. exact gen_matrix_row_display_order. Qed.
+Print Assumptions C10_gen_row_display_order.
+
+Theorem C10_gen_column_display_order :
+  with_tables (fun cm me ma t1 t2 _ =>
+    match ord_matrix_column_display_order with
+    | Some e => forall rows cols rreq creq rmask cmask rl cl tr env marg,
+        names_apart env marg ->
+        heval' (henv_slice cm me ma t1 t2 rows cols rreq creq rmask cmask rl cl tr env marg) e
+        = to_hres (slice_column_order (sl_sd rows cols rreq creq rmask cmask rl cl tr) env)
+    | None => True
+    end).
+Proof. exact gen_matrix_column_display_order. Qed.
+Print Assumptions C10_gen_column_display_order.
+
+(* the helper classes of the two orientations, class by class: column j of blocks (0,0)/(1,0) vs row i of
+   blocks (0,0)/(0,1); inserted column l of (0,1)/(1,1) vs inserted row k of (1,0)/(1,1) *)
+Theorem C10_gen_oriented_helpers :
+  rows_class ord_matrix__SortRowsByBaseColumnHelper__display_order MOppElement any_dims /\
+  cols_class ord_matrix__SortColumnsByBaseRowHelper__display_order MOppElement /\
+  rows_class ord_matrix__SortRowsByInsertedColumnHelper__display_order MOppInsertion
+             (fun _ cols => d_array cols = false) /\
+  cols_class ord_matrix__SortColumnsByInsertedRowHelper__display_order MOppInsertion /\
+  rows_class ord_matrix__SortRowsByLabelHelper__display_order MLabel any_dims /\
+  cols_class ord_matrix__SortColumnsByLabelHelper__display_order MLabel.
+Proof.
+  exact (conj gen_matrix_SortRowsByBaseColumnHelper (conj gen_matrix_SortColumnsByBaseRowHelper
+        (conj gen_matrix_SortRowsByInsertedColumnHelper (conj gen_matrix_SortColumnsByInsertedRowHelper
+        (conj gen_matrix_SortRowsByLabelHelper gen_matrix_SortColumnsByLabelHelper))))).
+Qed.
+Print Assumptions C10_gen_oriented_helpers.
+
+(* the assembled matrix takes the ROW order on axis 0 and the COLUMN order on axis 1 *)
+Theorem C10_gen_Slice__assemble_matrix :
+  match asm_Slice__assemble_matrix with
+  | Some e => forall (A : Type) (d : A) lit truthy n m p q (B : blocks A) ro co,
+      wf_blocks n m p q B -> Forall (in_range m n) ro -> Forall (in_range q p) co ->
+      aeval A d lit truthy (env_slice [("blocks", blocks_val n m p q B)] ro co) e
+      = VMat (List.length ro) (List.length co) (assemble d n m p q B ro co)
+  | None => True
+  end.
+Proof. exact gen_Slice__assemble_matrix. Qed.
+Print Assumptions C10_gen_Slice__assemble_matrix.
+
+Theorem C10_gen_Slice__assemble_marginal :
+  match asm_Slice__assemble_marginal with
+  | Some e => forall (A : Type) (d : A) lit truthy (defined rows : bool) base subs ro co,
+      Forall (in_range (List.length subs) (List.length base)) (if rows then ro else co) ->
+      aeval A d lit truthy (env_marginal defined rows base subs ro co) e
+      = if defined then VVec (assemble_vec d base subs (if rows then ro else co)) else VNone
+  | None => True
+  end.
+Proof. exact gen_Slice__assemble_marginal. Qed.
+Print Assumptions C10_gen_Slice__assemble_marginal.
+
+(* the per-dimension public lists of Model/TransposeView.v: rows from dimension 0 / the row order, columns
+   from dimension 1 / the column order *)
+Theorem C10_gen_dimension_lists :
+  labels_agree asm_Slice_row_labels "dim0" "element_labels" "subtotal_labels" true /\
+  labels_agree asm_Slice_column_labels "dim1" "element_labels" "subtotal_labels" false /\
+  labels_agree asm_Slice_row_codes "dim0" "element_ids" "insertion_ids" true /\
+  labels_agree asm_Slice_column_codes "dim1" "element_ids" "insertion_ids" false /\
+  labels_agree asm_Slice_row_aliases "dim0" "element_aliases" "subtotal_aliases" true /\
+  labels_agree asm_Slice_column_aliases "dim1" "element_aliases" "subtotal_aliases" false /\
+  inserted_agree_slice asm_Slice_inserted_row_idxs true /\
+  inserted_agree_slice asm_Slice_inserted_column_idxs false /\
+  derived_agree_slice asm_Slice_derived_row_idxs "dim0" true /\
+  derived_agree_slice asm_Slice_derived_column_idxs "dim1" false /\
+  diff_agree_slice asm_Slice_diff_row_idxs "dim0" true /\
+  diff_agree_slice asm_Slice_diff_column_idxs "dim1" false.
+Proof.
+  exact (conj gen_Slice_row_labels (conj gen_Slice_column_labels (conj gen_Slice_row_codes
+        (conj gen_Slice_column_codes (conj gen_Slice_row_aliases (conj gen_Slice_column_aliases
+        (conj gen_Slice_inserted_row_idxs (conj gen_Slice_inserted_column_idxs
+        (conj gen_Slice_derived_row_idxs (conj gen_Slice_derived_column_idxs
+        (conj gen_Slice_diff_row_idxs gen_Slice_diff_column_idxs))))))))))).
+Qed.
+Print Assumptions C10_gen_dimension_lists.
+End GenAgreeAssemble_C10.
+
+(* ---- WIRING-APPENDIX:BEGIN (generated by tools/gen_wiring_props.py; do not edit) ---- *)
+From CC Require Proofs.GenAgreeWiring_C10.
+Section Wiring_C10.
+Import Coq.Lists.List Coq.ZArith.ZArith Coq.Strings.String CC.Base.WiringExp CC.Gen.WiringSrc.
+Import ListNotations.
+Local Open Scope string_scope.
+
+Theorem C10_wiring_CubePartition_dimension_types :
+  wsrc_CubePartition_dimension_types = Some (WCall (WGlobal "tuple") [WComp "gen" (WAttr (WVar "d")
+      "dimension_type") [(["d"], WSelf "_dimensions", [])]] []).
+Proof. exact Proofs.GenAgreeWiring_C10.gen_wiring_CubePartition_dimension_types. Qed.
+Print Assumptions C10_wiring_CubePartition_dimension_types.
+
+Theorem C10_wiring_Slice_column_aliases :
+  wsrc_Slice_column_aliases = Some (WIndex (WCall (WAttr (WGlobal "np") "array") [WBin "+" (WAttr
+      (WIndex (WSelf "_dimensions") [WInt (1)%Z]) "element_aliases") (WAttr (WIndex (WSelf
+      "_dimensions") [WInt (1)%Z]) "subtotal_aliases")] []) [WSelf "_column_order_signed_indexes"]).
+Proof. exact Proofs.GenAgreeWiring_C10.gen_wiring_Slice_column_aliases. Qed.
+Print Assumptions C10_wiring_Slice_column_aliases.
+
+Theorem C10_wiring_Slice_column_codes :
+  wsrc_Slice_column_codes = Some (WIndex (WCall (WAttr (WGlobal "np") "array") [WBin "+" (WAttr
+      (WIndex (WSelf "_dimensions") [WInt (1)%Z]) "element_ids") (WAttr (WIndex (WSelf
+      "_dimensions") [WInt (1)%Z]) "insertion_ids")] []) [WSelf "_column_order_signed_indexes"]).
+Proof. exact Proofs.GenAgreeWiring_C10.gen_wiring_Slice_column_codes. Qed.
+Print Assumptions C10_wiring_Slice_column_codes.
+
+Theorem C10_wiring_Slice_column_labels :
+  wsrc_Slice_column_labels = Some (WIndex (WCall (WAttr (WGlobal "np") "array") [WBin "+" (WAttr
+      (WIndex (WSelf "_dimensions") [WInt (1)%Z]) "element_labels") (WAttr (WIndex (WSelf
+      "_dimensions") [WInt (1)%Z]) "subtotal_labels")] []) [WSelf "_column_order_signed_indexes"]).
+Proof. exact Proofs.GenAgreeWiring_C10.gen_wiring_Slice_column_labels. Qed.
+Print Assumptions C10_wiring_Slice_column_labels.
+
+Theorem C10_wiring_Slice_row_aliases :
+  wsrc_Slice_row_aliases = Some (WIndex (WCall (WAttr (WGlobal "np") "array") [WBin "+" (WAttr (WIndex
+      (WSelf "_dimensions") [WInt (0)%Z]) "element_aliases") (WAttr (WIndex (WSelf "_dimensions")
+      [WInt (0)%Z]) "subtotal_aliases")] []) [WSelf "_row_order_signed_indexes"]).
+Proof. exact Proofs.GenAgreeWiring_C10.gen_wiring_Slice_row_aliases. Qed.
+Print Assumptions C10_wiring_Slice_row_aliases.
+
+Theorem C10_wiring_Slice_row_codes :
+  wsrc_Slice_row_codes = Some (WIndex (WCall (WAttr (WGlobal "np") "array") [WBin "+" (WAttr (WIndex
+      (WSelf "_dimensions") [WInt (0)%Z]) "element_ids") (WAttr (WIndex (WSelf "_dimensions") [WInt
+      (0)%Z]) "insertion_ids")] []) [WSelf "_row_order_signed_indexes"]).
+Proof. exact Proofs.GenAgreeWiring_C10.gen_wiring_Slice_row_codes. Qed.
+Print Assumptions C10_wiring_Slice_row_codes.
+
+Theorem C10_wiring_Slice_row_labels :
+  wsrc_Slice_row_labels = Some (WIndex (WCall (WAttr (WGlobal "np") "array") [WBin "+" (WAttr (WIndex
+      (WSelf "_dimensions") [WInt (0)%Z]) "element_labels") (WAttr (WIndex (WSelf "_dimensions")
+      [WInt (0)%Z]) "subtotal_labels")] []) [WSelf "_row_order_signed_indexes"]).
+Proof. exact Proofs.GenAgreeWiring_C10.gen_wiring_Slice_row_labels. Qed.
+Print Assumptions C10_wiring_Slice_row_labels.
+
+Theorem C10_wiring_Strand_row_aliases :
+  wsrc_Strand_row_aliases = Some (WIndex (WCall (WAttr (WGlobal "np") "array") [WBin "+" (WAttr (WSelf
+      "_rows_dimension") "element_aliases") (WAttr (WSelf "_rows_dimension") "subtotal_aliases")]
+      []) [WSelf "_row_order_signed_indexes"]).
+Proof. exact Proofs.GenAgreeWiring_C10.gen_wiring_Strand_row_aliases. Qed.
+Print Assumptions C10_wiring_Strand_row_aliases.
+
+Theorem C10_wiring_Strand_row_codes :
+  wsrc_Strand_row_codes = Some (WIndex (WCall (WAttr (WGlobal "np") "array") [WBin "+" (WAttr (WSelf
+      "_rows_dimension") "element_ids") (WAttr (WSelf "_rows_dimension") "insertion_ids")] [])
+      [WSelf "_row_order_signed_indexes"]).
+Proof. exact Proofs.GenAgreeWiring_C10.gen_wiring_Strand_row_codes. Qed.
+Print Assumptions C10_wiring_Strand_row_codes.
+
+Theorem C10_wiring_Strand_row_labels :
+  wsrc_Strand_row_labels = Some (WIndex (WCall (WAttr (WGlobal "np") "array") [WBin "+" (WAttr (WSelf
+      "_rows_dimension") "element_labels") (WAttr (WSelf "_rows_dimension") "subtotal_labels")] [])
+      [WSelf "_row_order_signed_indexes"]).
+Proof. exact Proofs.GenAgreeWiring_C10.gen_wiring_Strand_row_labels. Qed.
+Print Assumptions C10_wiring_Strand_row_labels.
+
+End Wiring_C10.
+(* ---- WIRING-APPENDIX:END ---- *)
